@@ -1,8 +1,264 @@
-//! C12 harness entry (not implemented yet).
+//! C12: layout21raw::Transform (identity, translate, rotate, reflect_vert, from_instance, cascade),
+//! Point::transform, TransformTrait (through flatten) and Layout::flatten, on generated inputs.
+//!
+//! Doubles are printed as `to_bits()` integers; `-0.0` is printed as `+0.0` (the sign of a zero never
+//! reaches an integer coordinate: `x.round() as isize` of either zero is 0 and `z + b == b` for both).
 use l21h::{json, Value};
+use layout21raw::utils::Ptr;
+use layout21raw::{
+    Cell, Element, Int, Layer, LayerKey, LayerPurpose, Layers, Layout, Path, Point, Polygon, Rect,
+    Shape, Transform, Instance,
+};
 
-fn run(_case: &Value) -> Value {
-    json!({"harness_error": "not implemented"})
+fn bits(x: f64) -> u64 {
+    if x == 0.0 {
+        0
+    } else {
+        x.to_bits()
+    }
+}
+fn tbits(t: &Transform) -> Value {
+    json!([
+        bits(t.a[0][0]),
+        bits(t.a[0][1]),
+        bits(t.a[1][0]),
+        bits(t.a[1][1]),
+        bits(t.b[0]),
+        bits(t.b[1])
+    ])
+}
+fn int(v: &Value) -> Int {
+    v.as_i64().expect("integer") as Int
+}
+fn point(v: &Value) -> Point {
+    Point::new(int(&v[0]), int(&v[1]))
+}
+fn pj(p: &Point) -> Value {
+    json!([p.x as i64, p.y as i64])
+}
+/// Angle: null => None; number => Some(f64); {"bits": u64} => Some(from_bits)
+fn angle(v: &Value) -> Option<f64> {
+    if v.is_null() {
+        None
+    } else if let Some(b) = v.get("bits") {
+        Some(f64::from_bits(b.as_u64().expect("bits")))
+    } else {
+        Some(v.as_f64().expect("angle"))
+    }
+}
+struct Pl {
+    loc: Point,
+    refl: bool,
+    angle: Option<f64>,
+}
+fn placement(v: &Value) -> Pl {
+    Pl {
+        loc: Point::new(int(&v[0]), int(&v[1])),
+        refl: v[2].as_bool().expect("refl"),
+        angle: angle(&v[3]),
+    }
+}
+/// The placement written with the library's own elementary transforms:
+/// reflect (optional), then rotate, then translate. `cascade(parent, child)` applies `child` first.
+fn elementary(p: &Pl) -> Transform {
+    let refl = if p.refl {
+        Transform::reflect_vert()
+    } else {
+        Transform::identity()
+    };
+    let rot = match p.angle {
+        Some(a) => Transform::rotate(a),
+        None => Transform::identity(),
+    };
+    let tr = Transform::translate(p.loc.x as f64, p.loc.y as f64);
+    Transform::cascade(&tr, &Transform::cascade(&rot, &refl))
+}
+
+fn op_chain(case: &Value) -> Value {
+    let pls: Vec<Pl> = case["pl"].as_array().expect("pl").iter().map(placement).collect();
+    let pts: Vec<Point> = case["pts"].as_array().expect("pts").iter().map(point).collect();
+    let fi: Vec<Transform> = pls
+        .iter()
+        .map(|p| Transform::from_instance(&p.loc, p.refl, p.angle))
+        .collect();
+    let el: Vec<Transform> = pls.iter().map(elementary).collect();
+    // left-nested from the identity, as flatten_helper does
+    let mut t = Transform::identity();
+    for f in &fi {
+        t = Transform::cascade(&t, f);
+    }
+    // right-nested, no identity
+    let mut tr = Transform::identity();
+    if let Some(last) = fi.last() {
+        tr = *last;
+        for f in fi.iter().rev().skip(1) {
+            tr = Transform::cascade(f, &tr);
+        }
+    }
+    // left-nested product of the elementary compositions
+    let mut te = Transform::identity();
+    for f in &el {
+        te = Transform::cascade(&te, f);
+    }
+    let p: Vec<Value> = pts.iter().map(|q| pj(&q.transform(&t))).collect();
+    let pr: Vec<Value> = pts.iter().map(|q| pj(&q.transform(&tr))).collect();
+    let pe: Vec<Value> = pts.iter().map(|q| pj(&q.transform(&te))).collect();
+    // one placement at a time, innermost first, rounding at every level
+    let ps: Vec<Value> = pts
+        .iter()
+        .map(|q| {
+            let mut q = *q;
+            for f in fi.iter().rev() {
+                q = q.transform(f);
+            }
+            pj(&q)
+        })
+        .collect();
+    json!({
+        "fi": fi.iter().map(tbits).collect::<Vec<_>>(),
+        "el": el.iter().map(tbits).collect::<Vec<_>>(),
+        "t": tbits(&t), "tr": tbits(&tr), "te": tbits(&te),
+        "p": p, "pr": pr, "pe": pe, "ps": ps,
+    })
+}
+
+/// Elementary constructors on their own.
+fn op_elem(case: &Value) -> Value {
+    let k = case["kind"].as_str().unwrap_or("");
+    let t = match k {
+        "identity" => Transform::identity(),
+        "translate" => Transform::translate(int(&case["x"]) as f64, int(&case["y"]) as f64),
+        "rotate" => Transform::rotate(angle(&case["a"]).expect("angle")),
+        "reflect_vert" => Transform::reflect_vert(),
+        _ => return json!({"harness_error": "bad kind"}),
+    };
+    json!({ "t": tbits(&t) })
+}
+
+fn op_libm(case: &Value) -> Value {
+    let r: Vec<Value> = case["angles"]
+        .as_array()
+        .expect("angles")
+        .iter()
+        .map(|a| {
+            let a = a.as_f64().expect("angle");
+            // raw bit patterns here (the sign of a zero is kept)
+            json!([a.to_radians().sin().to_bits(), a.to_radians().cos().to_bits()])
+        })
+        .collect();
+    json!({ "r": r })
+}
+
+const NLAYERS: i64 = 3;
+fn purpose(code: i64) -> LayerPurpose {
+    match code {
+        0 => LayerPurpose::Drawing,
+        1 => LayerPurpose::Pin,
+        2 => LayerPurpose::Label,
+        _ => LayerPurpose::Other(code as i16),
+    }
+}
+fn purpose_code(p: &LayerPurpose) -> i64 {
+    match p {
+        LayerPurpose::Drawing => 0,
+        LayerPurpose::Pin => 1,
+        LayerPurpose::Label => 2,
+        LayerPurpose::Other(k) => *k as i64,
+        _ => -1,
+    }
+}
+fn shape(v: &Value) -> Shape {
+    let k = v[0].as_str().expect("shape kind");
+    match k {
+        "r" => Shape::Rect(Rect {
+            p0: point(&v[1]),
+            p1: point(&v[2]),
+        }),
+        "p" => Shape::Polygon(Polygon {
+            points: v[1].as_array().expect("pts").iter().map(point).collect(),
+        }),
+        "w" => Shape::Path(Path {
+            width: v[1].as_u64().expect("width") as usize,
+            points: v[2].as_array().expect("pts").iter().map(point).collect(),
+        }),
+        _ => panic!("harness: bad shape kind"),
+    }
+}
+fn shape_json(s: &Shape) -> Value {
+    match s {
+        Shape::Rect(r) => json!(["r", pj(&r.p0), pj(&r.p1)]),
+        Shape::Polygon(p) => json!(["p", p.points.iter().map(pj).collect::<Vec<_>>()]),
+        Shape::Path(p) => json!(["w", p.width as u64, p.points.iter().map(pj).collect::<Vec<_>>()]),
+    }
+}
+
+/// cells: list, children before parents; inst.cell is an index into the list (shared `Ptr`s: a DAG).
+/// A cell with "nolayout": true has `layout: None`.
+fn op_flatten(case: &Value) -> Value {
+    let mut layers = Layers::default();
+    let keys: Vec<LayerKey> = (0..NLAYERS).map(|n| layers.add(Layer::from_num(n as i16))).collect();
+    let mut ptrs: Vec<Ptr<Cell>> = Vec::new();
+    let mut layouts: Vec<Option<Layout>> = Vec::new();
+    for (ci, c) in case["cells"].as_array().expect("cells").iter().enumerate() {
+        let name = format!("c{}", ci);
+        if c["nolayout"].as_bool().unwrap_or(false) {
+            ptrs.push(Ptr::new(Cell::new(name)));
+            layouts.push(None);
+            continue;
+        }
+        let mut lay = Layout {
+            name: name.clone(),
+            ..Default::default()
+        };
+        for e in c["elems"].as_array().expect("elems") {
+            lay.elems.push(Element {
+                net: e["net"].as_i64().map(|n| format!("n{}", n)),
+                layer: keys[(e["layer"].as_i64().expect("layer") % NLAYERS) as usize],
+                purpose: purpose(e["purpose"].as_i64().expect("purpose")),
+                inner: shape(&e["sh"]),
+            });
+        }
+        for (ii, i) in c["insts"].as_array().expect("insts").iter().enumerate() {
+            let idx = i["cell"].as_u64().expect("cell idx") as usize;
+            lay.insts.push(Instance {
+                inst_name: format!("i{}", ii),
+                cell: ptrs[idx].clone(),
+                loc: point(&i["loc"]),
+                reflect_vert: i["r"].as_bool().expect("r"),
+                angle: angle(&i["a"]),
+            });
+        }
+        layouts.push(Some(lay.clone()));
+        ptrs.push(Ptr::new(Cell::from(lay)));
+    }
+    let top = case["top"].as_u64().expect("top") as usize;
+    let lay = layouts[top].as_ref().expect("top has a layout");
+    match lay.flatten() {
+        Err(e) => json!({ "err": format!("{:?}", e) }),
+        Ok(elems) => {
+            let r: Vec<Value> = elems
+                .iter()
+                .map(|e| {
+                    let layer = keys.iter().position(|k| *k == e.layer).map(|p| p as i64).unwrap_or(-1);
+                    json!({
+                        "net": e.net, "layer": layer, "purpose": purpose_code(&e.purpose),
+                        "sh": shape_json(&e.inner),
+                    })
+                })
+                .collect();
+            json!({ "r": r })
+        }
+    }
+}
+
+fn run(case: &Value) -> Value {
+    match case["op"].as_str().unwrap_or("") {
+        "chain" => op_chain(case),
+        "elem" => op_elem(case),
+        "libm" => op_libm(case),
+        "flatten" => op_flatten(case),
+        _ => json!({"harness_error": "bad op"}),
+    }
 }
 
 fn main() {
